@@ -327,6 +327,11 @@ class NetworkService(ModelElement):
         assert interface is not None
         assert isinstance(interface, Interface)
 
+        # run through guardrails also when called directly (not only from the constructor)
+        _, node_properties = self.topo.graph_model.get_node_properties(node_id=self.node_id)
+        self.__service_guardrails(
+            self.topo.graph_model.network_service_sliver_from_graph_properties_dict(node_properties), interface)
+
         # we can only connect interfaces connected to (compute or switch) nodes,
         parent = self.topo.get_owner_node(interface)
         if parent is None:
